@@ -244,3 +244,45 @@ func vpC19_PrimeSqrt() {
 			new(big.Int).Mod(new(big.Int).Mul(root, root), big.NewInt(p)).Int64() == int64(a))
 	}
 }
+
+func init() {
+	vpHarnesses["vpC19_RandomPrimeTop"] = vpC19_RandomPrimeTop
+}
+
+// vpTopReader hands out random bytes whose candidates lie among the sixteen highest values
+// of the interval (all bits one but the low four), for the first two candidates.
+type vpTopReader struct{ calls int }
+
+func (r *vpTopReader) Read(p []byte) (int, error) {
+	if r.calls >= 2 {
+		if vpNative() {
+			return rand.Read(p)
+		}
+		return 0, vpFreshError("no more random bytes")
+	}
+	for i := range p {
+		p[i] = 0xff
+	}
+	low := vpByte(fmt.Sprintf("top%d", r.calls))
+	vpAssume(low >= 0xf0)
+	p[len(p)-1] = low
+	r.calls++
+	return len(p), nil
+}
+
+// C19-O11 (= C05-O6: the exponent e of a signature is drawn with this function and has to
+// lie in its interval): RandomPrimeInRange at the top of the interval. For small intervals
+// (primality exact in the engine) and random bytes that put the first two candidates among
+// the sixteen highest values, whatever the function returns is a prime inside
+// [2^start, 2^start + 2^length] - also when the first candidate is composite and no prime
+// follows it inside the interval.
+func vpC19_RandomPrimeTop() {
+	cfgs := [][2]uint{{7, 8}, {10, 5}, {9, 7}, {11, 4}, {8, 6}}
+	c := cfgs[vpChoose("cfg", len(cfgs))]
+	p, err := RandomPrimeInRange(&vpTopReader{}, c[0], c[1])
+	vpAssume(err == nil)
+	lo := new(big.Int).Lsh(big.NewInt(1), c[0])
+	hi := new(big.Int).Add(lo, new(big.Int).Lsh(big.NewInt(1), c[1]))
+	vpAssert("a prime drawn near the top of the interval lies in the interval", p.Cmp(lo) >= 0 && p.Cmp(hi) <= 0)
+	vpAssert("a prime drawn near the top of the interval is prime", vpIsPrime(p))
+}
